@@ -1,0 +1,15 @@
+//go:build verif
+
+package pass1
+
+import "github.com/HobbyOSs/gosk/internal/ast"
+
+// VerifStmtHook is installed by the verification worker (build tag verif).
+// phase 0 = before a top-level statement is processed, 1 = after.
+var VerifStmtHook func(phase int, env *Pass1, stmt ast.Statement)
+
+func verifStmt(phase int, env *Pass1, stmt ast.Statement) {
+	if VerifStmtHook != nil {
+		VerifStmtHook(phase, env, stmt)
+	}
+}
